@@ -415,10 +415,8 @@ func emitPrimCases(w *caseWriter, r *rng, thorough bool) {
 			for _, e := range allIty {
 				p := primSpec{Kind: "basiclist", Le: le, Cnt: c, Ity: e}
 				lens := []int{0, 1, 2, 3}
-				if e == "U32" || e == "I16" || thorough {
-					lens = append(lens, 20, 255, 256)
-				}
-				if (c == "U16" && e == "U32") || (thorough && e == "U8") {
+				lens = append(lens, 20, 255, 256) // every element type: a per-type fast path must not skip the length check
+				if (c == "U16" && (e == "U32" || e == "U8")) || (thorough && e == "I8") {
 					lens = append(lens, 65535, 65536)
 				}
 				for _, n := range lens {
@@ -556,12 +554,17 @@ func calcService(name string, data []byte) (uint64, bool, []byte, int) {
 
 func (w *caseWriter) ckCase(name string, data []byte) {
 	op := fmt.Sprintf("CK\t%s\t%s", name, hex.EncodeToString(data))
-	v, ok, _, _ := calcService(name, data)
+	v, ok, after, unread := calcService(name, data)
 	if !ok {
 		w.add("calc", op, "missing")
 		return
 	}
-	w.add("calc", op, fmt.Sprintf("ok\t%x", v))
+	// Calc reads its buffer without consuming or changing it: the model's value and "all bytes still unread, unchanged"
+	state := "kept"
+	if unread != len(data) || !bytes.Equal(after, data) {
+		state = fmt.Sprintf("changed:%d/%d", unread, len(data))
+	}
+	w.add("calc", op, fmt.Sprintf("ok\t%x\t%s", v, state))
 }
 
 func emitCalcCases(w *caseWriter, r *rng, thorough bool) {
